@@ -266,6 +266,7 @@ type PathState struct {
 	Choices     []string
 	ChoiceVals  map[string]int
 	Fixed       map[string]string
+	FixedChoices map[string]int
 
 	floatOf map[string]string // bits constant -> float term it encodes
 	consts  []Nondet          // every declared constant (inputs and internal)
